@@ -164,3 +164,18 @@ func VerifC18Log() {
 	verifObserve("len", len(b))
 	verifReach("end")
 }
+
+// Length boundary of the byte-sized string: 254 content bytes (size byte 255) is the largest value
+// and must round-trip; 255 content bytes does not fit the size byte and must be refused.
+func VerifC18CStrMax() {
+	v := ByteSizedCStr{Data: verifStrNoNul("s", 254)}
+	w := bytes.NewBuffer(nil)
+	verifAssert(v.Marshal(w) == nil, "the longest byte-sized string (254 bytes) marshals")
+	b := w.Bytes()
+	verifAssert(len(b) == 256 && b[0] == 255 && b[255] == 0, "size byte 255, content, terminator")
+	var back ByteSizedCStr
+	verifAssert(back.Unmarshal(bytes.NewBuffer(b)) == nil && back.Data == v.Data, "decode(encode(s)) == s at the maximum length")
+	long := ByteSizedCStr{Data: v.Data + "x"}
+	verifAssert(long.Marshal(bytes.NewBuffer(nil)) != nil, "a string that does not fit the size byte is refused")
+	verifReach("end")
+}
